@@ -62,6 +62,7 @@ type scrape struct {
 	in, out, fail map[string]float64
 	hist          map[string]histVal
 	other         []string
+	extraFamilies int
 }
 
 func labelKey(m *dto.Metric, withMsg bool) (string, bool) {
@@ -128,7 +129,7 @@ func scrapeOf(fams []*dto.MetricFamily) *scrape {
 				if strings.HasPrefix(f.GetName(), "promhttp_") {
 					continue // the exporter's own handler instrumentation (NewHandler registers it in the same registry)
 				}
-				sc.other = append(sc.other, "unexpected family "+f.GetName())
+				sc.extraFamilies++ // further metric families are not the property's business
 			}
 		}
 	}
@@ -402,8 +403,24 @@ func oracle(s *kit.Summary, sq sequence, sc *scrape) {
 	if len(sc.other) > 0 {
 		bad("prom_unexpected_family", "scrape holds unexpected families or children", "", strings.Join(sc.other, "; "), nil)
 	}
-	if len(sc.in) != len(base) || len(sc.out) != len(base) || len(sc.hist) != len(base) {
-		bad("prom_label_sets", "label sets of the scrape differ from those observed", fmt.Sprint(len(base)), fmt.Sprint(len(sc.in), len(sc.out), len(sc.hist)), nil)
+	if sc.extraFamilies > 0 {
+		s.Count("scrape:further_families_ignored")
+	}
+	// label sets that were never observed may only show zeros
+	for k, v := range sc.in {
+		if _, ok := base[k]; !ok && v != 0 {
+			bad("prom_label_sets", "bytes-in counter with a value for a label set that was never observed: "+k, "absent or 0", fmt.Sprint(v), nil)
+		}
+	}
+	for k, v := range sc.out {
+		if _, ok := base[k]; !ok && v != 0 {
+			bad("prom_label_sets", "bytes-out counter with a value for a label set that was never observed: "+k, "absent or 0", fmt.Sprint(v), nil)
+		}
+	}
+	for k, h := range sc.hist {
+		if _, ok := base[k]; !ok && (h.count != 0 || h.sum != 0) {
+			bad("prom_label_sets", "histogram with samples for a label set that was never observed: "+k, "absent or empty", fmt.Sprint(h.count, h.sum), nil)
+		}
 	}
 	for k, a := range base {
 		if v, ok := sc.in[k]; !ok || v != float64(a.in) {
@@ -442,18 +459,9 @@ func oracle(s *kit.Summary, sq sequence, sc *scrape) {
 		if !okSum {
 			bad("prom_hist_sum", "histogram sum differs from the total seconds for "+k, exact.FloatString(12), fmt.Sprint(h.sum), nil)
 		}
-		// the documented histogram uses the client library's default buckets (seconds)
-		okBounds := len(h.les) == len(prometheus.DefBuckets)
-		for j := 0; okBounds && j < len(h.les); j++ {
-			okBounds = h.les[j] == prometheus.DefBuckets[j]
-		}
-		if !okBounds {
-			bad("prom_hist_bounds", "bucket bounds differ from prometheus.DefBuckets for "+k, fmt.Sprint(prometheus.DefBuckets), fmt.Sprint(h.les), nil)
-			continue
-		}
-		if len(h.cum) != len(boundsNs) {
-			bad("prom_hist_buckets", "unexpected number of buckets for "+k, fmt.Sprint(len(boundsNs)), fmt.Sprint(len(h.cum)), nil)
-			continue
+		// the property fixes the meaning of a bucket (count of latencies ≤ its bound in seconds), not the set of bounds
+		if len(h.les) != len(prometheus.DefBuckets) {
+			s.Count("scrape:buckets_other_than_default")
 		}
 		for j, le := range h.les {
 			var want uint64
@@ -486,7 +494,7 @@ func oracle(s *kit.Summary, sq sequence, sc *scrape) {
 		}
 	}
 	for k := range sc.fail {
-		if _, ok := fails[k]; !ok {
+		if _, ok := fails[k]; !ok && sc.fail[k] != 0 {
 			bad("prom_fail_counter_extra", "failure counter for a label set without failed results: "+k, "absent", fmt.Sprint(sc.fail[k]), nil)
 		}
 	}
